@@ -125,6 +125,35 @@ def run(ctx):
                         sample={'fn': fn, 'guards': ['start_pos <= position', 'position <= end_pos']} if i == 0 else None)
             else:
                 C.check(any(c.endswith('calc_element_insert_range') for c in cs) and 'position' not in names, 'C07-MUST-range', '%s|%s|position-from-range' % (fn, cname), '%s does not insert at a position taken from the computed range' % fn, b.where(p))
+    # a move WITHIN the same parent: the insert range was computed with the element still in place, so the end of the range must
+    # reach move_element_position, which refuses a forward move to it
+    mh = P.get('ElementRaw::move_element_here_at')
+    mp = P.get('ElementRaw::move_element_position')
+    mpc = calls(mh, r'ElementRaw>::move_element_position$')
+    okm = len(mpc) == 1
+    if okm:
+        t = mh.blocks[mpc[0][0]]['term']
+        us = [a for a in t['args'] if is_local_op(a) and (mh.local_ty(a['l']) or '') == 'usize']
+        okm = len(us) >= 2 and any(c.endswith('calc_element_insert_range') for c in all_sources(mh, us[1])[1]) and 'position' not in all_sources(mh, us[1])[0]
+    if okm:
+        # inside: a comparison of two usize PARAMETERS guards an Err exit
+        prm = [l for l in range(1, mp.argc + 1) if (mp.local_ty(l) or '') == 'usize']
+        okm = False
+        for pos, st in mp.iter_stmts():
+            if st['k'] == 'assign' and st['rv']['k'] == 'bin' and st['rv']['op'] in ('Ge', 'Gt', 'Le', 'Lt'):
+                ls = set()
+                for o in (st['rv']['a'], st['rv']['b']):
+                    if is_local_op(o):
+                        from flow import origins
+                        for org in origins(mp, o):
+                            if org[0] == 'param':
+                                ls.add(org[1])
+                        if 1 <= o['l'] <= mp.argc:
+                            ls.add(o['l'])
+                if len(ls & set(prm)) >= 2 and E.err_exit_positions(mp):
+                    okm = True
+    C.check(okm, 'C07-MUST-range', 'move_element_here_at|move-within-parent-respects-range-end', 'a move within the same parent is only checked against the insert range computed with the element still in place: position == end of range puts the element BEHIND the element that has to follow it '
+            '(the end of the range must be handed to move_element_position and a forward move to it refused)', '%s:%d' % (mp.file, mp.line), sample={'fn': 'move_element_position', 'guard': 'current < position && position >= end_pos -> InvalidPosition'})
     C.floor('C07-MUST-range.entries', n_entry, 8)
     # inserting functions are only reachable through the entry points (plus the loader / merge which have their own checks in C08 / C09)
     allowed = {
@@ -350,6 +379,29 @@ def run(ctx):
                 if tt['k'] == 'switch' and is_local_op(tt['d']) and any(c.endswith('get_sub_element_multiplicity') for c in all_sources(x, tt['d'], depth=8)[1]):
                     okm = True
         C.check(okm, 'C07-SIB-mult', fn + '|branches-on-multiplicity', '%s does not branch on the multiplicity of the element' % fn, '%s:%d' % (b.file, b.line))
+    # ---------------- SIB-named: one notion of "identifiable in this version" on all creation paths ----------------
+    C.rule('C07-SIB-named', 'whether a sub element needs an item name is decided with ElementType::is_named_in_version(file version) on both creation paths (create_sub_element_inner refuses named types, create_named_sub_element_inner requires them) and by the parser; '
+           'list_valid_sub_elements reports the named flag from the version-specific mask. The version-independent is_named() is not used to accept or refuse a creation')
+    for fn in ('ElementRaw::create_sub_element_inner', 'ElementRaw::create_named_sub_element_inner'):
+        b = P.get(fn)
+        nv = calls(b, r'ElementType::is_named_in_version$')
+        na = calls(b, r'ElementType::is_named$')
+        okn = len(nv) == 1 and not na
+        if okn:
+            t = b.blocks[nv[0][0]]['term']
+            okn = 'version' in all_sources(b, t['args'][1])[0] and any(c.endswith('find_sub_element') for c in all_sources(b, t['args'][0])[1])
+        C.check(okn, 'C07-SIB-named', fn + '|named-in-file-version', '%s does not decide "needs an item name" with is_named_in_version(file version) of the type found for the file version: for the types whose identifiability depends on the version, an element reported as allowed cannot be created (or is created in the wrong form)' % fn,
+                '%s:%d' % (b.file, b.line), sample={'fn': fn, 'test': 'elemtype.is_named_in_version(version)'})
+    lv = P.get('Element::list_valid_sub_elements')
+    okl = False
+    for x in P.with_closures(lv):
+        for cp in calls(x, r'AutosarVersion>?::compatible$'):
+            okl = okl or len(calls(x, r'AutosarVersion>?::compatible$')) >= 2
+    C.check(okl and bool(calls(lv, r'SubelemDefinitionsIter as .*Iterator>::next$|ElementType::sub_element_spec_iter$')), 'C07-SIB-named', 'list_valid_sub_elements|named-flag-from-version-mask', 'list_valid_sub_elements no longer derives is_named from the version-specific named mask of the specification')
+    # ---------------- SIB-escape (shared with C01): what the editor stores is written in a form the loader reads back ----------------
+    C.rule('C07-SIB-escape', 'writer and reader escaping tables are inverse and complete (a stored value containing < & " must be written so that the loader reads the same value): shared with C01-SIB-escape')
+    from c01 import escape_rules
+    escape_rules(C, P, json.load(open(os.path.join(ctx['facts'], 'syn.json')))['files'], 'C07-SIB-escape')
     # ---------------- DATA-mixed ----------------
     syn = json.load(open(os.path.join(ctx['facts'], 'syn.json')))['files']
     k = [x for x in syn if x.endswith('specification.rs')]
